@@ -8,6 +8,17 @@ releases.  Core Lean only.
 -/
 namespace KeepVerif.C25
 
+/-- T1 tie (lock-set facts regenerated from pkg/tbtc/wallet.go on every run): the whole body of
+    `dispatch` is one `actionsMutex` critical section in which the map is checked and written
+    before the goroutine is spawned; the goroutine deletes the key in a deferred function under
+    the same mutex and otherwise touches neither map nor mutex, so `execute()` runs outside the
+    lock; nothing else in the file touches the map.  This is what makes `dispatch k` and
+    `release k` atomic steps and `start` / `finish` separate ones. -/
+theorem lock_facts :
+    (Gen.C25.dispatchBodyLocked && Gen.C25.checkThenInsertBeforeSpawn &&
+      Gen.C25.releaseDeferredUnderLock && Gen.C25.executeOutsideLock &&
+      Gen.C25.mapOnlyInDispatch) = true := by decide
+
 /-- the dispatcher invariant: a key is in the map iff exactly one spawned goroutine for it is
     somewhere between "spawned" and "deleted its key" -/
 def Inv (s : St) : Prop := ∀ k, s.pend k + s.exec k + s.fin k = (if s.inMap k then 1 else 0)
